@@ -68,6 +68,10 @@ func runC20(c *sim.Ctx) {
 			w.Step()
 		}
 		w.Close()
+		if w.Snap == nil || len(w.Snap.Tables) == 0 {
+			c.Inc("world_without_tables", 1)
+			return
+		}
 		paths = append(paths, w.Path)
 		snaps = append(snaps, w.Snap)
 	}
